@@ -227,8 +227,14 @@ def real_value(fixed, mobile_construct, mobile_evals, restraints, fmt="tuples"):
     with contextlib.redirect_stdout(io.StringIO()):
         calc = cls(f, mc, _fmt(restraints, fmt))
         vals = []
+        buf = None
         for me in mobile_evals:
-            vals.append(float(calc(np.array(me, dtype=float).reshape(len(me), 3))))
+            arr = np.array(me, dtype=float).reshape(len(me), 3)
+            if buf is not None and buf.shape == arr.shape:
+                buf[:] = arr            # the SAME array object, edited in place, is evaluated again (a value remembered per object would show)
+            else:
+                buf = arr
+            vals.append(float(calc(buf)))
     sel = getattr(getattr(calc, "_meth_to_call", None), "__name__", None)
     return vals, sel
 
